@@ -555,7 +555,7 @@ func TestC09(t *testing.T) {
 		for _, a := range vocab.StructTypes {
 			for _, b := range vocab.StructTypes {
 				for _, full := range []bool{false, true} {
-					for _, variant := range []string{"ids-differ", "types-differ", "ids-differ-host", "ids-differ-port", "ids-differ-query", "ids-differ-query-value", "ids-differ-repeated-key", "ids-differ-repeated-key-multiset", "ids-differ-opaque"} {
+					for _, variant := range []string{"ids-differ", "types-differ", "ids-differ-host", "ids-differ-port", "ids-differ-query", "ids-differ-query-value", "ids-differ-repeated-key", "ids-differ-repeated-key-multiset", "ids-differ-opaque", "types-differ-one-untyped"} {
 						if a.Name() == "Link" || b.Name() == "Link" {
 							continue // the clause speaks of objects
 						}
@@ -577,6 +577,10 @@ func TestC09(t *testing.T) {
 							ida, idb = "urn:uuid:6e8bc430-9c3a-11d9-9669-0800200c9a66", "urn:uuid:6e8bc430-9c3a-11d9-9669-0800200c9a67"
 						case "ids-differ-repeated-key-multiset":
 							ida, idb = "https://example.com/things/1?x=1&x=1", "https://example.com/things/1?x=1&x=2"
+						}
+						if variant == "types-differ-one-untyped" {
+							// the same id, one side typed, the other without a type: the types differ
+							idb, tb = ida, ""
 						}
 						if variant == "types-differ" {
 							idb = ida
@@ -731,6 +735,11 @@ func TestC09(t *testing.T) {
 			case 1:
 				names := vocab.NamesFor(sv.Type().Name())
 				cur := sv.FieldByName("Type").String()
+				if cur != "" && rapid.IntRange(0, 3).Draw(t, "type-removed") == 0 {
+					yv.FieldByName("Type").SetString("")
+					what = "type"
+					break
+				}
 				for _, n := range names {
 					if !strings.EqualFold(string(n), cur) {
 						yv.FieldByName("Type").SetString(string(n))
